@@ -18,6 +18,7 @@ struct Case {
     disabled: Vec<String>,
     store: Store,
     max_cycles: usize,
+    entry: Entry,
 }
 
 impl Case {
@@ -27,6 +28,7 @@ impl Case {
             "disabled": self.disabled,
             "store": self.store.to_json(),
             "max_cycles": self.max_cycles,
+            "entry": self.entry.name(),
             "grl": fmt_rules(&self.rules),
         })
     }
@@ -36,6 +38,7 @@ impl Case {
             disabled: j.get("disabled")?.as_array()?.iter().filter_map(|v| v.as_str().map(|s| s.to_string())).collect(),
             store: Store::from_json(j.get("store")?)?,
             max_cycles: j.get("max_cycles")?.as_u64()? as usize,
+            entry: Entry::from_name(j.get("entry").and_then(|v| v.as_str()).unwrap_or("execute_with_callback")),
         })
     }
 }
@@ -67,8 +70,7 @@ fn inc(t: &str) -> Action {
 
 fn judge(case: &Case) -> (Verdict, Obs) {
     let mut obs = Obs::default();
-    let text = fmt_rules(&case.rules);
-    let run = run_forward_cfg(&text, case.rules.len(), &case.store, case.max_cycles, &case.disabled);
+    let run = run_forward_rules(&case.rules, &case.store, case.max_cycles, &case.disabled, case.entry);
     if run.parse_error.is_some() {
         obs.parse_failed = true;
         return (None, obs);
@@ -260,6 +262,7 @@ fn record(case: &Case, st: &mut Stats) {
     if obs.exec_err {
         st.count("execute_returned_err_(no_verdict)");
     }
+    st.count(&format!("runs_via::{}", case.entry.name()));
     st.add("passes_observed", obs.passes);
     st.add("firings_observed", obs.firings);
     st.add("fixpoint_rule_checks", obs.fixpoint_rules_checked);
@@ -374,7 +377,7 @@ fn gen_case(rng: &mut Rng) -> Case {
         3 => 64,
         _ => rng.below(65),
     };
-    Case { rules, disabled, store: gen_store(rng), max_cycles }
+    Case { rules, disabled, store: gen_store(rng), max_cycles, entry: if rng.bool() { Entry::WithCallback } else { Entry::Execute } }
 }
 
 struct C03;
@@ -389,8 +392,10 @@ fn explore_shard(cli: &Cli, shard: usize, nshards: usize, rng: &mut Rng, st: &mu
             continue;
         }
         for mc in 0..=64usize {
-            let c = Case { max_cycles: mc, ..base.clone() };
-            record(&c, st);
+            for entry in [Entry::WithCallback, Entry::Execute] {
+                let c = Case { max_cycles: mc, entry, ..base.clone() };
+                record(&c, st);
+            }
         }
     }
     // (2) random programs
